@@ -5,4 +5,4 @@ CONSTANTS
   Design = "extracted"
   Emit = TRUE
 SPECIFICATION Spec
-INVARIANTS TypeOK DoneAfterHandler CleanAfterDone MutexOwner EmitOutcome
+INVARIANTS TypeOK DoneAfterHandler CleanAfterDone MutexOwner TimerSound TimeoutEndsSilence EmitOutcome
